@@ -351,10 +351,13 @@ class QueueWorld(object):
         'maildrop': ['ok', 'temp', 'perm', 'killed'],
         'smtp': [{}, {'rcpt0': '251'}, {'rcpt0': '5'}, {'rcpt0': '4'}, {'mail': '4'}, {'data': '5'}, {'eod': '4'}, {'eod': '5'}, {'banner': 'disconnect'},
                  {'rcpt0': '4', 'rcpt1': '5'}, {'eod': 'disconnect'}, {'connect': 'refused'}, {'mail': 'stall'}, {'eod': 'stall'},
-                 {'rcpt0': '251', 'eod': '5'}],
+                 {'rcpt0': '251', 'eod': '5'},
+                 # one recipient accepted, one refused, and then DATA itself refused (e.g. greylisting at DATA time)
+                 {'rcpt1': '5', 'data': '4'}, {'rcpt0': '4', 'data': '5'}],
         'http': ['200+250', '200', '500+451', '503', '400+550', '404', 'drop', 'refused', '200+garbage', '302', '204', '301+250', 'late'],
         'lmtp': [{}, {'rcpt0': '5'}, {'eod0': '5'}, {'eod0': '4'}, {'eod1': '4'}, {'mail': '4'}, {'eod0': '5', 'eod1': '4'}, {'banner': 'disconnect'},
-                 {'rcpt0': '251', 'eod1': '4'}, {'rcpt0': '251', 'eod1': '5'}, {'rcpt0': '251'}, {'connect': 'refused'}, {'eod0': 'stall'}],
+                 {'rcpt0': '251', 'eod1': '4'}, {'rcpt0': '251', 'eod1': '5'}, {'rcpt0': '251'}, {'connect': 'refused'}, {'eod0': 'stall'},
+                 {'rcpt1': '5', 'data': '4'}, {'rcpt0': '4', 'data': '5'}],
     }
 
     def _real_relay_attempt(self, envelope, attempts, rec, led, rcpts, k):
